@@ -223,17 +223,23 @@ def enumerate_faults(ctx, op, meta, tmproot, crash_sample):
     ctx.event("write_points_measured", n_writes)
     ctx.event("conversion_steps_measured", m_steps)
     points = [("step", j, None) for j in range(m_steps)] + [("write", k, mode) for k in range(n_writes) for mode in ("before_open", "before_write", "mid_write", "at_close")]
+    # the same write faults once more with the condition persisting (the disk stays full: every later write fails too)
+    points += [("write", k, mode + "+persistent") for k in range(n_writes) for mode in ("before_write", "mid_write", "at_close")]
     for kind, idx, mode in points:
+        persistent = bool(mode) and mode.endswith("+persistent")
+        mode = mode[: -len("+persistent")] if persistent else mode
         for crash in (False, True):
+            if crash and persistent:
+                continue
             if crash and (kind == "step" or not crash_sample):
                 continue
             root = tempfile.mkdtemp(prefix="f", dir=tmproot)
             try:
                 p = op.build(root)
-                base = dict(base0, fault_kind=kind, fault_index=idx, fault_mode=mode or "raise", crash=crash)
+                base = dict(base0, fault_kind=kind, fault_index=idx, fault_mode=mode or "raise", crash=crash, fault_persists=persistent)
                 replay = {"what": "fault", "seed": ctx.seed, "tier": ctx.tier, "maker": meta.get("maker"), "case": meta.get("case"),
-                          "operation": op.name, "meta": {k: str(v) for k, v in meta.items()}, "fault": [kind, idx, mode, crash]}
-                ctx.case((op.name, tuple(sorted((k, str(v)) for k, v in meta.items())), kind, idx, mode, crash), nontrivial=True,
+                          "operation": op.name, "meta": {k: str(v) for k, v in meta.items()}, "fault": [kind, idx, mode, crash, persistent]}
+                ctx.case((op.name, tuple(sorted((k, str(v)) for k, v in meta.items())), kind, idx, mode, crash, persistent), nontrivial=True,
                          sample={"operation": op.name, "meta": {k: str(v) for k, v in meta.items()}, "fault": [kind, idx, mode, "crash" if crash else "error"]},
                          sample_key=(op.name, kind, crash))
                 fired = False
@@ -246,7 +252,7 @@ def enumerate_faults(ctx, op, meta, tmproot, crash_sample):
                     fired = pr.returncode == 137
                     ctx.event("crash_runs")
                 else:
-                    fo = FailOpen(k=idx if kind == "write" else None, mode=mode, root=os.path.realpath(root))
+                    fo = FailOpen(k=idx if kind == "write" else None, mode=mode, root=os.path.realpath(root), persistent=persistent)
                     undo = bind_open(fo, dt_modules())
                     ef = EmitterFaults(idx if kind == "step" else None).install()
                     try:
@@ -264,7 +270,10 @@ def enumerate_faults(ctx, op, meta, tmproot, crash_sample):
                     ctx.event("fault_did_not_fire")
                     continue
                 ctx.event("faults_fired")
-                ctx.feature("{}:{}:{}".format(op.name, mode or "step", "crash" if crash else "error"))
+                ctx.feature("{}:{}:{}".format(op.name, (mode or "step") + ("+persistent" if persistent else ""), "crash" if crash else "error"))
+                if persistent:
+                    ctx.event("persistent_faults_fired")
+                    ctx.event("opens_after_a_persistent_fault", getattr(fo, "later_opens", 0))
                 judge(ctx, base, replay, pre, post_ok, snapshot_dir(root), root, crash)
             finally:
                 shutil.rmtree(root, ignore_errors=True)
